@@ -3,20 +3,20 @@ package harness
 // Step is one plan step. A plan is data: it is generated from the seed before the run,
 // written into replay files, and shrunk by the minimiser.
 type Step struct {
-	Op      string `json:"op"`
-	Node    int    `json:"node"`
-	Node2   int    `json:"node2,omitempty"`
-	From    int    `json:"from,omitempty"` // wallet index; -(k+1) = wallet of node k
-	To      int    `json:"to,omitempty"`
-	Cur     uint64 `json:"cur,omitempty"`
-	Sup     uint64 `json:"sup,omitempty"`
-	Data    int    `json:"data,omitempty"` // length of the data payload (contract)
-	DelayMS int    `json:"delay_ms"`
-	NoWait  bool   `json:"nowait,omitempty"`
-	Ref     int    `json:"ref,omitempty"`
-	Kind    string `json:"kind,omitempty"`
-	K       int    `json:"k,omitempty"`
-	Via     string `json:"via,omitempty"` // notary | ledger
+	Op      string   `json:"op"`
+	Node    int      `json:"node"`
+	Node2   int      `json:"node2,omitempty"`
+	From    int      `json:"from,omitempty"` // wallet index; -(k+1) = wallet of node k
+	To      int      `json:"to,omitempty"`
+	Cur     uint64   `json:"cur,omitempty"`
+	Sup     uint64   `json:"sup,omitempty"`
+	Data    int      `json:"data,omitempty"` // length of the data payload (contract)
+	DelayMS int      `json:"delay_ms"`
+	NoWait  bool     `json:"nowait,omitempty"`
+	Ref     int      `json:"ref,omitempty"`
+	Kind    string   `json:"kind,omitempty"`
+	K       int      `json:"k,omitempty"`
+	Via     string   `json:"via,omitempty"` // notary | ledger
 	Links   [][2]int `json:"links,omitempty"`
 }
 
